@@ -241,6 +241,15 @@ func (w *walker) record(sel *ast.SelectorExpr, write, atomic bool) {
 	if !ok {
 		return
 	}
+	// a field of a local struct VALUE (`clone := *settings; clone.f = …`, a by-value parameter) is the function's own
+	// memory, not shared state: it cannot take part in a race before its address leaves the function
+	if id, isID := sel.X.(*ast.Ident); isID {
+		if v, isVar := w.info.Uses[id].(*types.Var); isVar && !v.IsField() && v.Parent() != nil && v.Pkg() != nil && v.Parent() != v.Pkg().Scope() {
+			if _, isStruct := v.Type().Underlying().(*types.Struct); isStruct {
+				return
+			}
+		}
+	}
 	// skip accesses to the mutex / waitgroup / once fields themselves and to method values
 	if v, ok := w.info.Selections[sel].Obj().(*types.Var); ok {
 		if n := namedOf(v.Type()); n != nil && n.Obj().Pkg() != nil && n.Obj().Pkg().Path() == "sync" {
@@ -543,6 +552,15 @@ func (w *walker) walkStmt(s ast.Stmt) {
 		w.f.Paths[w.fn] = append(w.f.Paths[w.fn], "go")
 		w.walkExpr(x.Call)
 	case *ast.DeferStmt:
+		// defer atomic.AddInt64(&x.f, -1): an atomic access like any other
+		if fs, ok := x.Call.Fun.(*ast.SelectorExpr); ok {
+			if id, ok := fs.X.(*ast.Ident); ok {
+				if pn, ok := w.info.Uses[id].(*types.PkgName); ok && pn.Imported().Path() == "sync/atomic" {
+					w.walkExpr(x.Call)
+					return
+				}
+			}
+		}
 		// defer mu.Unlock(): the lock stays held to the end of the function
 		if _, name, ok := isSyncMethod(w.info, x.Call); ok && (name == "Unlock" || name == "RUnlock") {
 			w.f.Paths[w.fn] = append(w.f.Paths[w.fn], "defer-unlock "+w.exprName(x.Call.Fun.(*ast.SelectorExpr).X))
